@@ -220,7 +220,7 @@ def _err_work(task):
 def run(tier):
     R = core.Run(PID, tier, "model_checking")
     quick = tier == "quick"
-    pool = progpool.build_pool(tier, parts=("A", "M", "K1"))
+    pool = progpool.build_pool(tier, parts=("A", "M", "K1"), model_tier="quick")
     items = []
     for origin, text in pool:
         toks = corpus.lex_tokens(text)
